@@ -59,10 +59,51 @@ func c18(c *core.Ctx) {
 		for _, b := range fn.Blocks {
 			if ifi, isIf := b.Instrs[len(b.Instrs)-1].(*ssa.If); isIf {
 				sl := core.Slice(ifi.Cond)
-				if sl[fn.Params[2]] && core.SliceHasOp(sl, token.GEQ) {
+				hasLen := false
+				for v := range sl {
+					if ci, isCall := v.(*ssa.Call); isCall {
+						if bi, isB := ci.Call.Value.(*ssa.Builtin); isB && bi.Name() == "len" {
+							hasLen = true
+						}
+					}
+				}
+				if bo, isBo := ifi.Cond.(*ssa.BinOp); isBo && sl[fn.Params[2]] && hasLen {
+					// which edge is taken when len(result) >= size ?
+					isLen := func(v ssa.Value) bool {
+						for {
+							switch x := v.(type) {
+							case *ssa.Convert:
+								v = x.X
+								continue
+							case *ssa.Call:
+								bi, isB := x.Call.Value.(*ssa.Builtin)
+								return isB && bi.Name() == "len"
+							}
+							return false
+						}
+					}
+					lenLeft := isLen(bo.X)
+					if !lenLeft && !isLen(bo.Y) {
+						continue
+					}
+					var exitWhenTrue, known bool
+					switch bo.Op {
+					case token.GEQ, token.GTR:
+						exitWhenTrue, known = lenLeft, true
+					case token.LEQ, token.LSS:
+						exitWhenTrue, known = !lenLeft, true
+					case token.EQL:
+						exitWhenTrue, known = true, true
+					}
 					body, _ := core.LoopOf(b)
-					if body != nil && !body[b.Succs[0]] {
-						ok = true
+					if known && body != nil {
+						exit := b.Succs[1]
+						if exitWhenTrue {
+							exit = b.Succs[0]
+						}
+						if !body[exit] {
+							ok = true
+						}
 					}
 				}
 			}
